@@ -8,17 +8,17 @@ Open Scope Z_scope.
 (* ---- flags and sets through the spec functions ---------------------------- *)
 Lemma okwf_sp_result t g res : okwf (sp_result t g res) = okwf t.
 Proof.
-  destruct res as [y|v]; cbn [sp_result]; [|reflexivity].
+  destruct res as [y|v|k]; cbn [sp_result]; [|reflexivity|reflexivity].
   destruct (is_pos y); [destruct (is_act t g)|]; reflexivity.
 Qed.
 Lemma ok08_sp_result t g res : ok08 (sp_result t g res) = ok08 t.
 Proof.
-  destruct res as [y|v]; cbn [sp_result]; [|reflexivity].
+  destruct res as [y|v|k]; cbn [sp_result]; [|reflexivity|reflexivity].
   destruct (is_pos y); [destruct (is_act t g)|]; reflexivity.
 Qed.
 Lemma ok09_sp_result t g res : ok09 (sp_result t g res) = ok09 t.
 Proof.
-  destruct res as [y|v]; cbn [sp_result]; [|reflexivity].
+  destruct res as [y|v|k]; cbn [sp_result]; [|reflexivity|reflexivity].
   destruct (is_pos y); [destruct (is_act t g)|]; reflexivity.
 Qed.
 
@@ -64,7 +64,15 @@ Proof. intros [? ? ? ? ? ? ? ? ? ? ?]; constructor; sproj; auto. Qed.
 
 (* ---- the body of one coroutine, up to its yield / return ------------------- *)
 Definition chk08 (t : spec) (h : gid) : bool :=
-  is_act t h && negb (memz h (t_ran t)) && head_ok h (t_order t).
+  is_act t h && negb (memz h (t_ran t)) && head_ok h (t_order t) && no_abort t.
+
+Lemma abort_sp_action t a o : t_abort (sp_action t a o) = t_abort t.
+Proof. destruct a; unfold sp_action; destruct (is_ok o); reflexivity. Qed.
+Lemma abort_sp_actions acts : forall t outs, t_abort (sp_actions t acts outs) = t_abort t.
+Proof.
+  induction acts as [|a acts IH]; intros t [|o outs]; cbn [sp_actions]; auto.
+  now rewrite IH, abort_sp_action.
+Qed.
 
 (* the scheduler at the moment the body of g is entered at position k *)
 Definition exec_pre (t : spec) (g : gid) (k : Z) (outs : list outcome) (acts : list action)
@@ -98,27 +106,30 @@ Qed.
 
 Lemma exec_sim sc s t g f b outs acts res s1 :
   Inv s (g :: f) b -> Rel s t (g :: f) b -> memz g (killq s) = false ->
+  t_abort t = None ->
   nth_error (script_of sc g) (Z.to_nat (zget (pcs s) g)) = Some (acts, res) ->
   run_actions (set_pc s g (zget (pcs s) g + 1)) acts outs = Some s1 ->
   okwf (sp_exec sc t (g, zget (pcs s) g, outs)) = true ->
   let t4 := sp_actions (exec_pre t g (zget (pcs s) g) outs acts) acts outs in
-  okwf t4 = true /\
+  okwf t4 = true /\ t_abort t4 = None /\
   exists b1,
     Inv s1 (g :: f) b1 /\ Rel s1 t4 (g :: f) b1 /\
     ~ In g (t_order t4) /\ ~ In g (t_due t4) /\
     ok08 t4 = ok08 t /\
     (NoLeak s -> NoLeak s1 /\ ok09 t4 = ok09 t).
 Proof.
-  intros HI HR Hk Hnth Hrun Hwf t4.
+  intros HI HR Hk Hab Hnth Hrun Hwf t4.
   destruct (front_head _ _ _ _ HI) as (Ea & Eg & Ep & Hn & ND & Hpos).
   set (k := zget (pcs s) g) in *.
   rewrite (sp_exec_unfold _ _ _ _ _ _ _ Hnth), okwf_sp_result in Hwf. fold t4 in Hwf.
   split; auto.
+  split. { unfold t4. rewrite abort_sp_actions. unfold exec_pre. sproj. exact Hab. }
   assert (C1 : chk08 t g = true).
   { unfold chk08. assert (is_act t g = true) as ->.
     { unfold is_act, sp_state. rewrite (r_st _ _ _ _ HR). unfold abs_st. now rewrite Eg, Hk. }
     assert (memz g (t_ran t) = false) as ->.
     { apply memz_false. intros H. apply (r_ran _ _ _ _ HR g H). now left. }
+    unfold no_abort. rewrite Hab, andb_true_r.
     cbn [negb andb]. unfold head_ok. destruct (t_order t) as [|x o] eqn:Eo; auto.
     destruct (memz g (x :: o)) eqn:M; [|apply orb_true_r].
     pose proof (r_ord _ _ _ _ HR) as Hord. rewrite Eo in Hord.
@@ -127,6 +138,7 @@ Proof.
   assert (C2 : is_act (flag08 (chk08 t g) t) g && (k =? zget (t_pc (flag08 (chk08 t g) t)) g) = true).
   { apply andb_true_iff. split.
     - unfold chk08 in C1. apply andb_true_iff in C1. destruct C1 as [C1 _].
+      apply andb_true_iff in C1. destruct C1 as [C1 _].
       apply andb_true_iff in C1. destruct C1 as [C1 _]. exact C1.
     - sproj. rewrite (r_pc _ _ _ _ HR). apply Z.eqb_refl. }
   pose proof (exec_pre_rel s t g f b k outs acts HR) as HR1.
@@ -147,28 +159,28 @@ Qed.
 
 (* ---- the loop --------------------------------------------------------------- *)
 Lemma loop_sim sc : forall fuel f s t b log s' e,
-  Inv s f b -> Rel s t f b ->
+  Inv s f b -> Rel s t f b -> t_abort t = None ->
   loop sc fuel s log = Some (s', [], e) ->
   okwf (fold_left (sp_exec sc) log t) = true ->
-  e = false /\
+  e = abort_outcome (fold_left (sp_exec sc) log t) /\
   exists b', Inv s' [] b' /\ Rel s' (fold_left (sp_exec sc) log t) [] b' /\
              ok08 (fold_left (sp_exec sc) log t) = ok08 t /\
              (NoLeak s ->
               NoLeak s' /\ ok09 (fold_left (sp_exec sc) log t) = ok09 t).
 Proof.
-  induction fuel as [|fuel IH]; intros f s t b log s' e HI HR Hl Hwf; [discriminate|].
+  induction fuel as [|fuel IH]; intros f s t b log s' e HI HR Hab Hl Hwf; [discriminate|].
   cbn [loop] in Hl. destruct f as [|g f].
   - (* the sentinel is at the head *)
     rewrite (i_act _ _ _ HI) in Hl. cbn [map app] in Hl. injection Hl as <- -> <-.
-    cbn [fold_left]. split; auto. exists b. auto.
+    cbn [fold_left]. split; [unfold abort_outcome; now rewrite Hab|]. exists b. auto.
   - destruct (front_head _ _ _ _ HI) as (Ea & Eg & Ep & Hn & ND & Hpos).
     rewrite Ea in Hl.
     destruct (memz g (killq s)) eqn:Hk.
     { (* pending kill: dropped *)
       destruct (drop_active_sim _ _ _ _ _ HI HR Hk) as (s1 & Ed & HI1 & HR1 & HL1).
       rewrite Ed in Hl.
-      destruct (IH _ _ _ _ _ _ _ HI1 HR1 Hl Hwf) as (-> & b' & HI' & HR' & H08 & HL').
-      split; [reflexivity|]. exists b'. split; [exact HI'|]. split; [exact HR'|].
+      destruct (IH _ _ _ _ _ _ _ HI1 HR1 Hab Hl Hwf) as (He & b' & HI' & HR' & H08 & HL').
+      split; [exact He|]. exists b'. split; [exact HI'|]. split; [exact HR'|].
       split; [exact H08|]. intros L. apply HL'; auto. }
     destruct (memz g (gdone s)) eqn:Hdn.
     { (* an exhausted generator is never queued *)
@@ -183,25 +195,27 @@ Proof.
       [|discriminate].
     cbn [fold_left] in *.
     pose proof (okwf_fold_mono _ _ _ Hwf) as Hwf1.
-    destruct (exec_sim _ _ _ _ _ _ _ _ _ _ HI HR Hk Hnth Hrun Hwf1)
-      as (_ & b1 & HI1 & HR1 & Ho & Hd & H08 & HL1).
+    destruct (exec_sim _ _ _ _ _ _ _ _ _ _ HI HR Hk Hab Hnth Hrun Hwf1)
+      as (_ & Hab4 & b1 & HI1 & HR1 & Ho & Hd & H08 & HL1).
     rewrite (sp_exec_unfold _ _ _ _ _ _ _ Hnth) in *.
     set (t4 := sp_actions (exec_pre t g (zget (pcs s) g) outs acts) acts outs) in *.
-    destruct res as [y|v].
-    + destruct (is_pos y) as [z|] eqn:Ey.
+    destruct res as [y|v|x].
+    + assert (Hab5 : t_abort (sp_result t4 g (RYield y)) = None).
+      { cbn [sp_result]. destruct (is_pos y); [destruct (is_act t4 g)|]; exact Hab4. }
+      destruct (is_pos y) as [z|] eqn:Ey.
       * (* parked *)
         assert (y = YNum z /\ 0 < z) as [-> Hz].
         { destruct y as [|z']; cbn in Ey; [discriminate|].
           destruct (0 <? z') eqn:E; [|discriminate]. injection Ey as ->. split; auto. lia. }
         destruct (park_sim _ _ _ _ _ _ HI1 HR1 Hz Ho Hd) as (HI2 & HR2 & HL2).
-        destruct (IH _ _ _ _ _ _ _ HI2 HR2 Hl Hwf) as (-> & b' & HI' & HR' & H08' & HL').
+        destruct (IH _ _ _ _ _ _ _ HI2 HR2 Hab5 Hl Hwf) as (He & b' & HI' & HR' & H08' & HL').
         split; auto. exists b'. split; auto. split; auto. split.
         -- now rewrite H08', ok08_sp_result.
         -- intros L. destruct (HL1 L) as [L1 E9]. destruct (HL' (HL2 L1)) as [L' E9'].
            split; auto. now rewrite E9', ok09_sp_result.
       * (* rotated *)
         destruct (rotate_sim _ _ _ _ _ _ HI1 HR1 Ey Ho Hd) as (HI2 & HR2 & HL2).
-        destruct (IH _ _ _ _ _ _ _ HI2 HR2 Hl Hwf) as (-> & b' & HI' & HR' & H08' & HL').
+        destruct (IH _ _ _ _ _ _ _ HI2 HR2 Hab5 Hl Hwf) as (He & b' & HI' & HR' & H08' & HL').
         split; auto. exists b'. split; auto. split; auto. split.
         -- now rewrite H08', ok08_sp_result.
         -- intros L. destruct (HL1 L) as [L1 E9]. destruct (HL' (HL2 L1)) as [L' E9'].
@@ -209,10 +223,17 @@ Proof.
     + (* returned *)
       destruct (finish_sim _ _ _ _ _ v HI1 HR1 Ho Hd) as (s2 & Ef & HI2 & HR2 & HL2).
       rewrite Ef in Hl.
-      destruct (IH _ _ _ _ _ _ _ HI2 HR2 Hl Hwf) as (-> & b' & HI' & HR' & H08' & HL').
+      assert (Hab5 : t_abort (sp_result t4 g (RReturn v)) = None) by exact Hab4.
+      destruct (IH _ _ _ _ _ _ _ HI2 HR2 Hab5 Hl Hwf) as (He & b' & HI' & HR' & H08' & HL').
       split; auto. exists b'. split; auto. split; auto. split.
       * now rewrite H08', ok08_sp_result.
       * intros L. destruct (HL1 L) as [L1 E9].
         destruct (HL' (HL2 L1)) as [L' E9']. split; auto.
         now rewrite E9', ok09_sp_result.
+    + (* raised: the frame is abandoned *)
+      destruct (abort_sim _ _ _ _ _ x HI1 HR1 Ho Hd) as (s2 & Ef & HI2 & HR2 & HL2).
+      rewrite Ef in Hl. injection Hl as <- -> <-. cbn [fold_left].
+      split; [reflexivity|]. exists (b1 ++ f). split; auto. split; auto. split.
+      * now rewrite ok08_sp_result.
+      * intros L. destruct (HL1 L) as [L1 E9]. split; auto.
 Qed.
